@@ -249,7 +249,15 @@ class Driver:
             self.stats["virtuals"] += 1
             if "alias" in wm:
                 self.stats["aliases"] += 1
-                s.append("(void)v.%s().Ok(); (void)v.%s().IsComplete();" % (cpp, cpp))
+                # `IsComplete()` is documented for views of physical fields only: leave it out when the alias
+                # names a virtual field of this structure (the view returned is that field's virtual view)
+                path = wm["alias"].get("path", [])
+                target = path[-1].get("canonical_name", {}).get("object_path", [None])[-1] if len(path) == 1 else None
+                virtual_target = any(g["name"]["name"]["text"] == target and "read_transform" in g
+                                     for g in t["structure"].get("field", []))
+                s.append("(void)v.%s().Ok(); (void)v.%s().IsAggregate();" % (cpp, cpp))
+                if not virtual_target:
+                    s.append("(void)v.%s().IsComplete();" % cpp)
                 return s
             e = "v.%s()" % cpp
             s += ["(void)%s.Ok(); (void)%s.IsAggregate();" % (e, e),
